@@ -52,9 +52,16 @@ def check_case(case: dict):
             else:
                 payload = discsim.bad_reply(h["kind"], h["args"][k % len(h["args"])], h["ip"])
             delay = 0.01 + pos * case.get("spacing", 0.001) + pos * 1e-6       # (arrival order = `order`, also for spacing 0)
+            if case.get("pause") and pos >= case["pause"][0]:
+                delay += case["pause"][1]        # the replies from this position on come after a silence (slow responders)
+                delay = min(delay, 4.8 + pos * 1e-4)      # (still well inside the 5 s timeout)
             per_host[hi].append((delay, [6445, 20086][(pos + hi) % 2], payload))
         routes = {"10.255.255.255": [h["ip"] for h in hosts]} if (case.get("target") == "directed" or case.get("api") == "single") else {}
         world = discsim.UdpWorld(net, [dict(ip=h["ip"], listen_port=h.get("listen_port", 6445), replies=per_host[i]) for i, h in enumerate(hosts)], routes)
+        for i, h in enumerate(hosts):
+            if not h["good"] and h["kind"] == "xml" and h.get("v1_info") is not None:
+                # a legacy unit whose info port accepts the connection and answers (well-formed XML, something else, nothing)
+                net.listen(h["ip"], 6443, discsim.V1InfoServer(loop, None if h["v1_info"] == "" else bytes.fromhex(h["v1_info"]), then=h.get("v1_then")))
         auto = bool(case.get("auto_connect")) and (case.get("cloud") or not any(h["good"] and h["version"] == 3 for h in hosts))   # V3 auto-connect needs the cloud
         auto = auto and not any(h.get("alt") for h in hosts)      # (a host answering in both formats is not backed by a model device)
         kw = {}
@@ -84,7 +91,9 @@ def check_case(case: dict):
                 res["devices"] = await Discover.discover(auto_connect=auto, timeout=5, **kw)
         except BaseException as e:
             res["exc"] = e
-        res["cb"] = [str(c.get("exception")) for c in loop.callback_exceptions]
+        # (an exception out of datagram_received() is fatal for the datagram endpoint: asyncio closes it and every later reply is lost;
+        # one out of the data_received() of a legacy unit's info connection only ends that connection)
+        res["cb"] = [str(c.get("exception")) for c in loop.callback_exceptions if c.get("message") == "datagram_received raised"]
 
     _, loop = vloop.run(main, net)
     if "exc" in res:
@@ -154,6 +163,8 @@ def _args_for(kind: str, rnd_bytes) -> list:
         return list(range(0, 46))      # 46..51 cut inside the name: still parses (to a shorter name), neither good nor bad for sure
     if kind == "v3short":
         return [0, 1, 7, 8, 15, 16, 17, 40]
+    if kind == "xml":
+        return list(range(0, 14))
     if kind == "name_len":
         return [0, 1, 3, 4]            # longer prefixes of net_ac_F7B4 parse to a valid type byte
     return list(range(0, 12))
@@ -256,6 +267,33 @@ def run(ctx) -> None:
                     ctx.check(case, lambda c: _run_one(ctx, c))
     ctx.sweep("auto-connect incl. V3 (model cloud) x malformed neighbour x bytes above the id", a, True)
 
+    # a legacy (XML) responder whose info port answers: well-formed XML, text that is no XML, bytes that are no text, nothing; with or
+    # without hanging up - next to well-formed hosts
+    V1_REPLIES = ["<root><body><device sn='1' type='ac'/></body></root>".encode().hex(), b"hello, not xml".hex(), b"<root><unclosed>".hex(), "fffe00c3", "", b"\x00".hex(), b"<?xml version='1.0'?>".hex()]
+    x1 = 0
+    for reply in V1_REPLIES:
+        for then in (None, "fin"):
+            for arg in (11, 13):
+                for order in ([1, 0, 2], [0, 2, 1]):
+                    x1 += 1
+                    if ctx.mine(x1):
+                        bad = dict(_bad_host(0, "xml", [arg]), v1_info=reply)
+                        if then:
+                            bad["v1_then"] = then
+                        hs = [dict(_good_host(0, 2 + x1 % 2), good=True, kind="good"), bad, dict(_good_host(1, 3 - x1 % 2), good=True, kind="good")]
+                        ctx.check({"hosts": hs, "order": order, "target": "directed" if x1 % 3 == 0 else None}, lambda c: _run_one(ctx, c))
+    ctx.sweep("legacy XML responder with an answering info port x reply class x hang-up x arrival order", x1, True)
+    # slow responders: a silence of 1..4.5 s between replies (everything still arrives within the 5 s timeout)
+    sl = 0
+    for pos in (1, 2, 3):
+        for silence in (1.0, 2.2, 3.0, 4.5):
+            for order in ([0, 1, 2, 3], [3, 2, 1, 0], [0, 0, 1, 2, 3]):
+                sl += 1
+                if ctx.mine(sl):
+                    hs = [dict(_good_host(i, 2 + (i + sl) % 2), good=True, kind="good") for i in range(3)] + [_bad_host(0, "cut", [17])]
+                    ctx.check({"hosts": hs, "order": order, "spacing": 0.01, "pause": [pos, silence]}, lambda c: _run_one(ctx, c))
+    ctx.sweep("slow responders: silence between replies x position x arrival order", sl, True)
+
     def mk_case(spec):
         hosts = []
         for i, (good, version, tt, kind, seed) in enumerate(spec["hosts"]):
@@ -266,19 +304,25 @@ def run(ctx) -> None:
             else:
                 args = _args_for(kind, rnd_bytes)
                 hosts.append(_bad_host(i, kind, [args[(seed + j) % len(args)] for j in range(3)]))
+                if kind == "xml" and seed % 3 == 0:
+                    hosts[-1]["v1_info"] = ["3c726f6f742f3e", "68656c6c6f", "fffe00c3", "", "3c726f6f743e"][seed % 5]
         order = [x % len(hosts) for x in spec["order"]]
         # the address a well-formed reply carries inside need not be the address it comes from (stale lease, second interface)
         for i, (h, e) in enumerate(zip(hosts, spec.get("embed", []))):
             if h["good"] and e:
                 h["reported_ip"] = {"next": hosts[(i + 1) % len(hosts)]["ip"], "prev": hosts[i - 1]["ip"], "zero": "0.0.0.0", "other": "192.168.77.7"}[e]
-        return {"hosts": hosts, "order": order, "auto_connect": spec["auto"] and not any(h.get("reported_ip") for h in hosts), "spacing": spec["spacing"], "target": spec["target"],
-                "cloud": spec.get("cloud", False), "api": "single" if (spec.get("single") and spec["target"] != "directed") else None}
+        out = {"hosts": hosts, "order": order, "auto_connect": spec["auto"] and not any(h.get("reported_ip") for h in hosts), "spacing": spec["spacing"], "target": spec["target"],
+               "cloud": spec.get("cloud", False), "api": "single" if (spec.get("single") and spec["target"] != "directed") else None}
+        if spec.get("pause"):
+            out["pause"] = [spec["pause"][0] % max(1, len(order)), spec["pause"][1]]
+        return out
 
     host = st.tuples(st.booleans(), st.sampled_from([2, 3]), st.sampled_from([0xAC, 0xAC, 0xA1, 0xFF]), st.sampled_from(discsim.BAD_KINDS), st.integers(0, 60))
     embed = st.sampled_from([None, None, "next", "prev", "zero", "other"])
     cases = st.fixed_dictionaries({"hosts": st.lists(host, min_size=1, max_size=4), "order": st.lists(st.integers(0, 3), min_size=1, max_size=14),
                                    "auto": st.booleans(), "spacing": st.sampled_from([0.0, 0.001, 0.2]), "target": st.sampled_from([None, None, "directed"]),
-                                   "embed": st.lists(embed, min_size=4, max_size=4), "cloud": st.booleans(), "single": st.sampled_from([False, False, False, True])}).map(mk_case)
+                                   "embed": st.lists(embed, min_size=4, max_size=4), "cloud": st.booleans(), "single": st.sampled_from([False, False, False, True]),
+                                   "pause": st.sampled_from([None, None, [1, 2.2], [2, 3.0], [1, 4.5], [3, 1.0]])}).map(mk_case)
     ctx.hyp("random", cases, lambda c: _run_one(ctx, c), ctx.n(4000, 200000))
     # byte-level search (atheris/libFuzzer) over raw datagrams and fuzzer-chosen bodies inside well-formed envelopes; an
     # additional search, the verdict never depends on it being available
